@@ -102,12 +102,7 @@ impl TorrentMaps {
         let mut statistics_messages = Vec::new();
         let mut opt_scrape_export_writer = if export_full_scrape {
             match File::create(config.scrape_exports.tmp_path()) {
-                Ok(file) => {
-                    #[cfg(aquatic_verif)]
-                    aquatic_common::verif::probe("export_created", 0);
-
-                    Some(BufWriter::new(file))
-                }
+                Ok(file) => Some(BufWriter::new(file)),
                 Err(err) => {
                     ::log::error!(
                         "Could not create temporary scrape export file at path {}: {:?}",
@@ -121,6 +116,11 @@ impl TorrentMaps {
         } else {
             None
         };
+
+        #[cfg(aquatic_verif)]
+        if opt_scrape_export_writer.is_some() {
+            aquatic_common::verif::probe("export_created", 0);
+        }
 
         let ipv4 = self.ipv4.clean_and_get_statistics(
             config,
@@ -160,18 +160,16 @@ impl TorrentMaps {
         }
 
         if let Some(mut w) = opt_scrape_export_writer.take() {
-            let flush_result = w.flush();
-
-            #[cfg(aquatic_verif)]
-            aquatic_common::verif::probe("export_flushed", 0);
-
-            if let Err(err) = flush_result {
+            if let Err(err) = w.flush() {
                 ::log::error!(
                     "Could not flush writes to temporary scrape export file at path {}: {:?}",
                     config.scrape_exports.tmp_path().to_string_lossy(),
                     err
                 );
             } else {
+                #[cfg(aquatic_verif)]
+                aquatic_common::verif::probe("export_flushed", 0);
+
                 drop(w);
 
                 #[cfg(aquatic_verif)]
